@@ -606,3 +606,28 @@ def r15(ctx, R):
             R.check(ok, f'{fn.name} :: f[{idx}] is evaluated from u[{idx}] at the time of node {idx}', w, want, ast.unparse(s)[:110])
     if n < 12:
         raise AnalysisError(f'C02.R15: only {n} stores of eval_f results into f[..] found outside the sweepers')
+
+
+@rule('C02', 'C02.R16', 'every preconditioner matrix is built from the parameter of the SAME name: X = get_Qdelta_implicit(params.X) for X in QI / Q1 / Q2, X = get_Qdelta_explicit(params.X) for QE - in every sweeper constructor (a sweep with QI built from the QE name is the Picard iteration of another preconditioner)', floor=12)
+def r16(ctx, R):
+    repo = ctx.repo
+    n = 0
+    for m, ci, fn in repo.all_functions():
+        if ci is None or not (m.relpath.startswith('pySDC/implementations/sweeper_classes/') or 'projects/DAE/sweepers' in m.relpath):
+            continue
+        for s in ast.walk(fn):
+            if not (isinstance(s, ast.Assign) and len(s.targets) == 1 and isinstance(s.value, ast.Call) and isinstance(s.value.func, ast.Attribute) and s.value.func.attr in ('get_Qdelta_implicit', 'get_Qdelta_explicit')):
+                continue
+            t = s.targets[0]
+            name = t.attr if isinstance(t, ast.Attribute) else t.id if isinstance(t, ast.Name) else None
+            arg = s.value.args[0] if s.value.args else next((k.value for k in s.value.keywords if k.arg == 'qd_type'), None)
+            if name is None or arg is None:
+                continue
+            n += 1
+            w = f'{m.relpath}:{ci.name}.{fn.name}'
+            R.fn(w)
+            kind = 'implicit' if s.value.func.attr.endswith('implicit') else 'explicit'
+            ok = ast.unparse(arg) == f'self.params.{name}' and ((kind == 'explicit') == (name == 'QE'))
+            R.check(ok, f'{ci.name}.{fn.name} :: {name} = get_Qdelta_{kind}(self.params.{name})', w, f'{name} from self.params.{name} through the {"explicit" if name == "QE" else "implicit"} builder', ast.unparse(s)[:100])
+    if n < 12:
+        raise AnalysisError(f'C02.R16: only {n} preconditioner constructions found')
